@@ -30,9 +30,16 @@ CHECKS = {
    text='All 15 helpers for all 2^16/2^32/2^64 values: memory image of CpuToBe/CpuToLe, inverse laws, to-host from a wire image, swap involution and byte reversal; both #if branches (host little / host big).'),
  'C17': dict(cat='model_checking', ref='3/C17', tech=BMC + ' (relational: two views on the same bytes)',
    text='Every unordered pair of views of every sharing group the property names: read/read, write/write (generic and dedicated), write-through-one/read-through-the-other, pinned to the oracle position; all buffers and values; LE+BE. Each view is compiled in its own TU so that the verdict does not depend on header combination (C20).'),
+
+ 'C06': dict(cat='model_checking', ref='3/C06', tech=BMC + '; symbolic-length functional query + exhaustive exact-extent queries',
+   text='Full and brief ACF-CAN builders: (F) payload length symbolic 0..64 (thorough: up to the ACF maximum 2028/2036), all payload bytes, all 32-bit identifiers, both variants, all prior contents - whole object incl. guard bytes compared with the reference message; composition SetPayload+setters+Finalize; GetCanPayloadLength; brief return value; (E) one query per concrete length with message and payload objects of exact extent. LE+BE.'),
+ 'C09': dict(cat='model_checking', ref='3/C09', tech=BMC + '; symbolic-length functional query + exhaustive exact-extent queries',
+   text='Avtp_Vss_Pad for every message length 12..96 (thorough: ..2044): length/pad fields, exactly the pad bytes zeroed, everything else incl. guard bytes unchanged; exact-extent object per concrete length; all 512 length values through the dedicated accessors. LE+BE.'),
+ 'C10': dict(cat='model_checking', ref='3/C10', tech=BMC + '; exhaustive exact-extent queries over all length vectors in the bound',
+   text='Pack / count / unpack (length phase and data phase) for EVERY vector of up to 3 strings of up to 2 bytes (thorough: 4 x 3, plus a symbolic-shape functional query) with symbolic bytes and requested counts S-1..S+2, all objects of exact extent; count of 300 empty strings.'),
 }
 NA = {}
-for i in (6,7,8,9,10,14,15,16,18,19,20):
+for i in (7,8,14,15,16,18,19,20):
     NA['C%02d' % i] = 'check not built yet in this round (see DESIGN.md section 3 for the plan)'
 
 def main():
